@@ -109,7 +109,9 @@ pub fn rand_url(rng: &mut Rng) -> String {
 }
 
 pub fn rand_node(rng: &mut Rng) -> B {
-  let host = *rng.pick(&["router.example.com", "1.2.3.4", "2001:db8::1", "::ffff:1.2.3.4", "x.org", "::"]);
+  // (one time in eight a host no host parser takes: such a torrent is refused, or every node of it is shown - never
+  // accepted with the node left out)
+  let host = if rng.chance(1, 8) { *rng.pick(&["dht node.example", "example.com/dht", "", "a b", "[", "256.1.1.1", "host:1"]) } else { *rng.pick(&["router.example.com", "1.2.3.4", "2001:db8::1", "::ffff:1.2.3.4", "x.org", "::", "Router.Example.COM", "0x7f.1"]) };
   B::List(vec![B::s(host), B::Int(*rng.pick(&[0i128, 1, 80, 6881, 65535]))])
 }
 
@@ -219,7 +221,7 @@ pub fn accepted(rng: &mut Rng, o: &Opts) -> (B, Vec<u8>) {
   }
   if rng.chance(1, 3) {
     // (the last three do not fit a signed 64-bit integer: the typed reader takes them, a generic bencode reader may not)
-    top.push((b"creation date".to_vec(), B::Int(*rng.pick(&[0i128, 1, 1_600_000_000, 4_102_444_800, 253_402_300_799, 1 << 62, (1 << 63) - 1, 1 << 63, (1 << 63) + 12345, (1 << 64) - 1]))));
+    top.push((b"creation date".to_vec(), B::Int(*rng.pick(&[0i128, 1, 1_600_000_000, 4_102_444_800, 99_999_999_999, 100_000_000_000, 1_600_000_000_000, 253_402_300_799, 253_402_300_800, 4_102_444_800_000, 10_000_000_000_000, 1 << 62, (1 << 63) - 1, 1 << 63, (1 << 63) + 12345, (1 << 64) - 1]))));
   }
   if rng.chance(1, 3) {
     top.push((b"encoding".to_vec(), B::s("UTF-8")));
